@@ -45,12 +45,22 @@ def is_nontrivial(pkts, mn, mx):
     return False
 
 
+_variant = [0]
+
+
 def rt_case(pkts, mn, mx, dev, stream, tags, pre_ops=()):
     ops = [pline(p, "p%d" % i) for i, p in enumerate(pkts)]
     ops += ["enc e dev %d" % dev, "enc e stream %d" % stream]
     ops += list(pre_ops)
     ids = " ".join("p%d" % i for i in range(len(pkts)))
-    ops.append(("enc e encode %d %d %s" % (mn, mx, ids)).rstrip())
+    # the three overloads of Encoder::encode take turns (iterator over Packet, iterator over shared_ptr<Packet>, single packet)
+    _variant[0] += 1
+    kind = "encode"
+    if _variant[0] % 5 == 0:
+        kind = "encodep"
+    elif _variant[0] % 7 == 0 and len(pkts) == 1:
+        kind = "encode1"
+    ops.append(("enc e %s %d %d %s" % (kind, mn, mx, ids)).rstrip())
     ops.append("dec d feedlast e")
     ops.append("dec d pending")
     ops.append("enc e seq")
@@ -317,7 +327,7 @@ def _chk_ops(prop, case, im):
             dev = int(w[3])
         if w[0] == "enc" and len(w) > 3 and w[2] == "stream":
             stream = int(w[3])
-        if w[0] == "enc" and w[2] == "encode":
+        if w[0] == "enc" and w[2].startswith("encode"):
             last_ids = w[5:]
             if prop in ("C07", "C08") and l.startswith("frames "):
                 ops.append(("chkfr %s %s %s | %s" % (w[3], w[4], " ".join(w[5:]), " ".join(l.split(" ")[2:]))).replace("  ", " "))
@@ -378,7 +388,7 @@ def pred_c09(case, impl, model, ctx):
         elif w[2] == "seq":
             if l != "seq %d" % q:
                 return False
-        elif w[2] == "encode":
+        elif w[2].startswith("encode"):
             if not l.startswith("frames "):
                 return False
             bv = {vers.get(i) for i in w[5:]}
@@ -402,7 +412,7 @@ def pred_c10(case, impl, model, ctx):
         w = o.split(" ")
         if w[0] == "enc" and w[1] == "e" and w[2] == "seq":
             k = int(l.split(" ")[1]) if l.startswith("seq ") else None
-        if w[0] == "enc" and w[2] == "encode":
+        if w[0] == "enc" and w[2].startswith("encode"):
             if w[1] == "e":
                 used = l
             elif w[1] == "f":
